@@ -346,6 +346,23 @@ def zstr_value(model, term):
     return re.sub(r"\\u\{([0-9a-fA-F]+)\}", lambda m: chr(int(m.group(1), 16)), s)
 
 
+COMMON_FIELDS = ("previous_hash", "signed_message", "epoch.0", "metadata.network", "metadata.protocol_version", "metadata.protocol_parameters.k",
+                 "metadata.protocol_parameters.m", "metadata.initiated_at", "metadata.sealed_at")
+
+
+def common_fields(model, V, except_field):
+    """values the model gives to the other plain fields: applied to both native certificates so that the context matches"""
+    out = []
+    for n in sorted(V):
+        if n == except_field:
+            continue
+        short = n[2:]
+        if short in COMMON_FIELDS or re.match(r"^metadata\.signers\[\d+\]\.(party_id|stake)$", short):
+            v = V[n]
+            out.append([short, zstr_value(model, v).encode().hex() if z3.is_string(v) else str(model.eval(v, model_completion=True))])
+    return out
+
+
 def native_cert_hash(rows):
     from checks.c17 import native_query
     lines = native_query(["cert_hash " + json.dumps(r).encode().hex() for r in rows])
@@ -483,9 +500,10 @@ def run(tier, seed):
         def simple_spec(field, kind):
             def build(model):
                 x, y = V[field], fresh(V[field], field)
+                common = common_fields(model, V, field)
                 if kind == "str":
-                    return {"field": field[2:], "a": zstr_value(model, x).encode().hex(), "b": zstr_value(model, y).encode().hex()}
-                return {"field": field[2:], "a": str(model.eval(x, model_completion=True)), "b": str(model.eval(y, model_completion=True))}
+                    return {"field": field[2:], "a": zstr_value(model, x).encode().hex(), "b": zstr_value(model, y).encode().hex(), "common": common}
+                return {"field": field[2:], "a": str(model.eval(x, model_completion=True)), "b": str(model.eval(y, model_completion=True)), "common": common}
             return build
 
         for name in sorted(V):
@@ -533,16 +551,28 @@ def run(tier, seed):
         cert_b, sb_b, outs_b, axioms_b = run_hash(ctx_b, prog, NS + 1)
         phi_b = relation(ctx_b, outs_b, h)
         ob = rep.add(core.Obligation("c04_signers_list_length", "smt", "a certificate with %d signers in its metadata and one with the same %d plus one more have different hashes" % (NS, NS)))
-        r = smt.check(base + [phi_b] + axioms_b + list(sb_b.constraints), timeout_s=tmo)
+        r = smt.check_status_forked(base + [phi_b] + axioms_b + list(sb_b.constraints), timeout_s=QUICK_DIRECT)
         ob.solver_s = r.seconds
-        ob.status = "discharged" if r.status == "unsat" else "failed" if r.status == "sat" else "inconclusive"
-        if r.status == "sat":
+        model = None
+        if r.status == "unsat":
+            ob.status = "discharged"
+        else:
+            m = counterexample_search(ctx, outs, [], list(sb.constraints) + list(sb_b.constraints), axioms + axioms_b, tmo, outs2=outs_b)
+            if m is None:
+                ob.status = "discharged"
+            elif m == "unknown":
+                ob.status = "inconclusive"
+                rep.inconcl("signers list length: solver gave up")
+            else:
+                model = m
+        if model is not None:
+            ob.status = "failed"
             ob.role = "c04-signers_list_length"
-            spec = {"field": "metadata.signers.len", "a": "0", "b": "1"}
+            Vb = sb_b.vars
+            spec = {"field": "metadata.signers.len", "a": "0", "b": "1", "common": common_fields(model, V, None),
+                    "extra_signer": [zstr_value(model, Vb["c.metadata.signers[%d].party_id" % NS]).encode().hex(), str(model.eval(Vb["c.metadata.signers[%d].stake" % NS], model_completion=True))]}
             ob.counterexample = {"field": "metadata.signers", "spec": spec}
             failures.append((ob, spec))
-        elif r.status != "unsat":
-            rep.inconcl("signers list length: %s" % r.reason)
         rep.functions += sorted(set("%s -> %s" % (a, b) for a, b in ctx.I.calls_seen.items() if b.startswith("mir:")))
     except Unencodable as e:
         rep.inconcl("unencodable: %s" % e)
@@ -688,13 +718,14 @@ def hash_eq(t1, t2):
     return z3.And(conds)
 
 
-def counterexample_search(ctx, outs, pairs, extra, axioms, timeout_s):
+def counterexample_search(ctx, outs, pairs, extra, axioms, timeout_s, outs2=None):
     """path-pair-wise search for two inputs with equal hashes using the decomposition above; returns a model or None / 'unknown'"""
     oks = [o for o in outs if o.kind == "return" and o.value.discr == 0]
+    oks2 = oks if outs2 is None else [o for o in outs2 if o.kind == "return" and o.value.discr == 0]
     unknown = False
     for o1 in oks:
-        for o2 in oks:
-            pc2 = [z3.substitute(c, *pairs) for c in o2.pc]
+        for o2 in oks2:
+            pc2 = [z3.substitute(c, *pairs) for c in o2.pc] if pairs else list(o2.pc)
             pre = list(o1.pc) + pc2 + list(extra)
             s = z3.Solver()
             s.set("timeout", 5000)
@@ -702,9 +733,9 @@ def counterexample_search(ctx, outs, pairs, extra, axioms, timeout_s):
             if s.check() == z3.unsat:
                 continue
             h1 = o1.value.payloads[0][0].term
-            h2 = z3.substitute(o2.value.payloads[0][0].term, *pairs)
+            h2 = z3.substitute(o2.value.payloads[0][0].term, *pairs) if pairs else o2.value.payloads[0][0].term
             eq = hash_eq(h1, h2)
-            ax = list(axioms) + [z3.substitute(a, *pairs) for a in axioms]
+            ax = list(axioms) + ([z3.substitute(a, *pairs) for a in axioms] if pairs else [])
             r = smt.check(pre + [eq] + (ax if "Concat" in str(eq) or "==" in str(z3.simplify(eq)) and z3.is_string(h1) and "str." in z3.simplify(eq).sexpr() else []), timeout_s=timeout_s)
             if r.status == "sat":
                 return r.model
